@@ -62,6 +62,7 @@ type schedCfg struct {
 	alignTo          time.Duration // e.g. the checkpoint ticker's period: requests land while a checkpoint/rotation runs
 	shutdown         bool          // graceful Shutdown at a tape-chosen moment
 	shutAtYield      int           // >0: request it at that scheduling point of the other tasks (else between requests)
+	slowSyncPermille int           // probability (per mille) that an fsync / sync(2) takes virtual time
 	tail             time.Duration // virtual time to let pass at the end
 	readAllBuckets   bool
 	coldStart        bool
@@ -133,6 +134,20 @@ func runSched(w *Workload, c schedCfg, seed uint64) *schedRun {
 	shutAfter := -1
 	if c.shutdown {
 		shutAfter = r.Intn(c.writers*c.opsPerClient + 1)
+	}
+	// a slow disk: in some runs an fsync or sync(2) takes virtual time (5 ms ... 20 s),
+	// so that timers fire and other tasks get through whole requests while the
+	// WAL writer sits in the middle of a flush or a checkpoint
+	if c.slowSyncPermille > 0 {
+		sr2 := simrt.NewRand(seed ^ 0x510d15c)
+		simos.SlowSync = func(kind string) time.Duration {
+			if sr2.Intn(1000) >= c.slowSyncPermille {
+				return 0
+			}
+			sr.probes["slow-sync-"+kind]++
+			return []time.Duration{5 * time.Millisecond, 200 * time.Millisecond, time.Second, 6 * time.Second, 20 * time.Second}[sr2.Intn(5)]
+		}
+		defer func() { simos.SlowSync = nil }()
 	}
 	var simStart int64
 	sr.sim = simrt.Run(w.Sim, func() {
@@ -796,6 +811,7 @@ func c07Engine() *Engine {
 		r := simrt.NewRand(seed ^ 0x0707)
 		w := schedWorkload(seed, tier, 40)
 		c := schedCfg{writers: 2 + r.Intn(3), readers: 1 + r.Intn(2), opsPerClient: 3 + r.Intn(5), think: time.Duration(r.Intn(3)) * 300 * time.Millisecond, tail: 2 * time.Second, coldStart: r.Pct(20)}
+		c.slowSyncPermille = []int{0, 0, 0, 40, 150}[r.Intn(5)]
 		if tier == "thorough" {
 			c.opsPerClient += 6
 		}
@@ -824,6 +840,7 @@ func c18Engine() *Engine {
 		r := simrt.NewRand(seed ^ 0x1818)
 		w := schedWorkload(seed, tier, 60)
 		c := schedCfg{writers: 2 + r.Intn(3), readers: 2 + r.Intn(3), opsPerClient: 4 + r.Intn(6), think: time.Duration(r.Intn(2)) * 200 * time.Millisecond, tail: time.Second, coldStart: r.Pct(20)}
+		c.slowSyncPermille = []int{0, 0, 0, 40, 150}[r.Intn(5)]
 		if tier == "thorough" {
 			c.opsPerClient += 8
 		}
